@@ -2,16 +2,20 @@ import Mathlib.Algebra.Field.Basic
 import Falcon.Gen.Params
 import Mathlib.Tactic.Ring
 import Mathlib.Tactic.FieldSimp
+import Falcon.Lemmas.FfSamplingExact
 
 /-!
 # C10 — signatures are spherical Gaussian: the exact-field identities behind it
 
 What makes the output spherical is (i) the LDL* decomposition of the Gram matrix used to build the tree and
 (ii) the nearest-plane identity ‖(t − z)·B‖² = Σ_leaves (t'_leaf − z_leaf)²·d_leaf together with the
-normalisation σ_leaf = σ/√d_leaf.  Proved here over an arbitrary field: the 2×2 LDL identity as `ffldl`
-computes it, and the one-level nearest-plane identity (the induction step of (ii)).  The identity at full
-depth is evaluated numerically on every traced signature (to 10⁻⁶ relative, observed 10⁻¹²), which checks the
-whole Gram/LDL/normalise/ffSampling chain per signature.  NOT decided: closeness of the joint law to the
+normalisation σ_leaf = σ/√d_leaf.  Proved here: over an arbitrary field the 2×2 LDL identity and the one-level
+nearest-plane identity; and, for the model of `ldl` / `ffldl` / `ffsampling` (`Model/FfSampling`, written over abstract
+field operations) instantiated with any field with an involution, the identity at FULL depth
+(`fast_fourier_nearest_plane_identity`): for every depth, every Hermitian Gram matrix with non-zero pivots, every
+target and every sequence of leaf outputs.  The same model instantiated with floating-point pairs is compared bit for
+bit with the Rust code per key and per traced signature, and the identity is evaluated numerically on every traced
+signature (to 10⁻⁶ relative, observed 10⁻¹²).  NOT decided: closeness of the joint law to the
 spherical discrete Gaussian (Klein/GPV theorem and its smoothing-parameter condition).
 -/
 namespace Falcon.Props.C10
@@ -55,5 +59,66 @@ theorem nearest_plane_step (g00 g10 g11 t0 t1 z0 z1 : K) (h0 : g00 ≠ 0) :
 theorem leaf_normalisation (x d sigma s : K) (hs : s * s = d) (hsig : sigma ≠ 0) (hs0 : s ≠ 0) :
     sigma * sigma * ((x / (sigma / s)) * (x / (sigma / s))) = x * x * d := by
   rw [← hs]; field_simp
+
+/-! ### the identity at full depth, on the model of ffsampling.rs -/
+
+section FullDepth
+open Falcon.FfS
+variable {F : Type} [Field F] [StarRing F]
+
+/-- **fast-Fourier nearest plane, every depth**: for the Falcon tree `ffldl` of every Gram matrix that is Hermitian with
+    non-zero pivots at every level (`Good`; for the Gram matrix of a basis all pivots are positive), every target (t0, t1)
+    of length 2^(k+1), unit-modulus twiddles, and EVERY sequence of leaf outputs (the integer sampler is a parameter): the
+    outputs (z0, z1) of `ffsampling` have the right lengths and
+
+      Σ_slots (t − z)·G·(t − z)^*  =  acc,
+
+    the weighted sum of the leaf deviations accumulated along the recursion (2·(b − z)·G_leaf·(b − z)^* at the two leaves
+    of a bottom branch, doubled at every level above; `leaf_term` gives the leaf's contribution in the form the code uses) -/
+theorem fast_fourier_nearest_plane_identity (T : Nat → F) (hT : ∀ j, 1 ≤ j → T j * star (T j) = 1) (h2 : (2 : F) ≠ 0)
+    (k : Nat) (g : Gram F) (hg : Good T k g) (t0 t1 s : List F) (l0 : t0.length = 2 ^ (k + 1)) (l1 : t1.length = 2 ^ (k + 1)) :
+    (ffsampling fieldOps T (TIof T) (ffldl fieldOps (TIof T) k g) t0 t1 s).1.length = 2 ^ (k + 1) ∧
+    (ffsampling fieldOps T (TIof T) (ffldl fieldOps (TIof T) k g) t0 t1 s).2.1.length = 2 ^ (k + 1) ∧
+    QG (2 ^ (k + 1)) g
+        (List.zipWith (fieldOps (K := F)).sub t0 (ffsampling fieldOps T (TIof T) (ffldl fieldOps (TIof T) k g) t0 t1 s).1)
+        (List.zipWith (fieldOps (K := F)).sub t1 (ffsampling fieldOps T (TIof T) (ffldl fieldOps (TIof T) k g) t0 t1 s).2.1)
+      = acc T k g t0 t1 s :=
+  ffsampling_quadratic_form T hT h2 k g hg t0 t1 s l0 l1
+
+/-- a leaf whose two slot values coincide (= δ: the diagonal entry is a real constant, as for the transform of a
+    self-adjoint real polynomial) contributes δ·(|a0|² + |a1|²): with σ_leaf = σ/√δ this is σ²·((a0/σ_leaf)² + (a1/σ_leaf)²) -/
+theorem leaf_term (T : Nat → F) (δ a0 a1 : F) (h2 : (2 : F) ≠ 0) :
+    QG 1 (childGram fieldOps (TIof T) [δ, δ]) [a0] [a1] = δ * (a0 * star a0 + a1 * star a1) :=
+  leaf_form T δ a0 a1 h2
+
+/-- one level: LDL* on the quadratic form, then each diagonal entry one level down (`branch_step`), for ANY four
+    half-size vectors in place of the children's outputs -/
+theorem one_branch {m : Nat} (T : Nat → F) (g : Gram F) (hg : Herm (2 * m) g) (t0 t1 z0a z0b z1a z1b : List F)
+    (l0 : t0.length = 2 * m) (l1 : t1.length = 2 * m) (la0 : z0a.length = m) (lb0 : z0b.length = m)
+    (la1 : z1a.length = m) (lb1 : z1b.length = m)
+    (hT : ∀ i, i < m → T (m + i) * star (T (m + i)) = 1) (h2 : (2 : F) ≠ 0) :
+    QG (2 * m) g (List.zipWith (fieldOps (K := F)).sub t0 (merge fieldOps T z0a z0b))
+        (List.zipWith (fieldOps (K := F)).sub t1 (merge fieldOps T z1a z1b)) =
+      2 * QG m (childGram fieldOps (TIof T) (ldl fieldOps g).2.1)
+          (List.zipWith (fieldOps (K := F)).sub (split fieldOps (TIof T) (List.zipWith (fieldOps (K := F)).add t0
+            (List.zipWith (fieldOps (K := F)).mul (List.zipWith (fieldOps (K := F)).sub t1 (merge fieldOps T z1a z1b)) (ldl fieldOps g).1))).1 z0a)
+          (List.zipWith (fieldOps (K := F)).sub (split fieldOps (TIof T) (List.zipWith (fieldOps (K := F)).add t0
+            (List.zipWith (fieldOps (K := F)).mul (List.zipWith (fieldOps (K := F)).sub t1 (merge fieldOps T z1a z1b)) (ldl fieldOps g).1))).2 z0b) +
+      2 * QG m (childGram fieldOps (TIof T) (ldl fieldOps g).2.2)
+          (List.zipWith (fieldOps (K := F)).sub (split fieldOps (TIof T) t1).1 z1a)
+          (List.zipWith (fieldOps (K := F)).sub (split fieldOps (TIof T) t1).2 z1b) :=
+  branch_step m T g hg t0 t1 z0a z0b z1a z1b l0 l1 la0 lb0 la1 lb1 hT h2
+
+/-- the child Gram matrices are Hermitian automatically; only their pivots are a hypothesis -/
+theorem tree_gram_matrices_are_hermitian (m : Nat) (T : Nat → F) (d : List F) (ld : d.length = 2 * m)
+    (hd : ∀ j, j < 2 * m → star (at' d j) = at' d j)
+    (hp : ∀ i, i < m → at' (split fieldOps (TIof T) d).1 i ≠ 0) : Herm m (childGram fieldOps (TIof T) d) :=
+  herm_child m T d ld hd hp
+
+/-- non-vacuity: over ℚ (trivial involution, twiddles 1) a diagonal Gram matrix with positive entries meets `Good` -/
+example : Good (fun _ => (1 : ℚ)) 0 ⟨[2, 2], [0, 0], [0, 0], [3, 3]⟩ := by
+  refine ⟨rfl, rfl, rfl, rfl, ?_, ?_, ?_, ?_⟩ <;> intro j hj <;> interval_cases j <;> simp [at']
+
+end FullDepth
 
 end Falcon.Props.C10
